@@ -7,6 +7,7 @@ SK = 'crates/oq3_parser/src/syntax_kind/syntax_kind_enum.rs'
 TS = 'crates/oq3_parser/src/token_set.rs'
 IN = 'crates/oq3_parser/src/input.rs'
 EV = 'crates/oq3_parser/src/event.rs'
+PL = 'crates/oq3_parser/src/lib.rs'
 PA = 'crates/oq3_parser/src/parser.rs'
 G = 'crates/oq3_parser/src/grammar.rs'
 GI = 'crates/oq3_parser/src/grammar/items.rs'
@@ -250,7 +251,76 @@ ensures r == self.jbit(n as int),''',
     e = U.file(EV)
     e.item('enum', 'Event')
     e.impl('Event', [('tombstone', dict(ret='r', props=P, spec='ensures r == (Event::Start { kind: SyntaxKind::TOMBSTONE, forward_parent: None }),'))])
+    U.prelude('contracts/parser.process.rs')
+    # event::process: events -> Output.  C01: every forward_parent chain it follows stays inside the list and on Start events
+    # (the invariant `fp_ok` that every parser operation maintains, part of Parser::wf); C02: every Token event is passed on,
+    # in order, with its raw-token count, and every Finish event becomes one Exit step.
+    INV = 'tok_steps(output.steps()) == tok_events(ev0.take(i as int)), n_exit(output.steps()) == n_finish(ev0.take(i as int)), steps_ok(output.steps()), tok_sum_b(output.steps()) == ev_sum(ev0.take(i as int)),'
+    e.fn('process', ret='r', props=P,
+         rewrites=[('D26', 'for i in 0..events.len() {', 'for i in oq3_r: 0..events.len() {'),
+                   ('D27', 'for kind in forward_parents.drain(..).rev() {', 'while let Some(kind) = forward_parents.pop() {'),
+                   ('D25', 'pub(super) fn process(mut events: Vec<Event>)', 'pub(super) fn process(events: Vec<Event>)'),
+                   ('D25', 'let mut output = Output::default();', 'let mut events = events; let mut output = Output::default();')],
+         spec='''
+requires fp_ok(events@), toks_ok(events@),                       // established by the parser: Parser::wf() of the final state
+ensures tok_steps(r.steps()) == tok_events(events@),             //@C02,C01:every-token-event-is-passed-on
+    n_exit(r.steps()) == n_finish(events@),                      //@C02,C01:every-finish-becomes-one-exit
+    steps_ok(r.steps()), tok_sum_b(r.steps()) == ev_sum(events@),                    //@C02,C01:token-steps-account-for-the-consumed-tokens
+    root_first(events@) ==> r.steps().len() >= 1 && r.steps()[0] is Enter,           //@C02,C01:output-starts-with-enter
+    (events@.len() > 0 && events@.last() is Finish) ==> r.steps().len() >= 1 && r.steps().last() is Exit,       //@C02,C01:output-ends-with-exit''',
+         ghost=[('let mut forward_parents = Vec::new();', 'after', 'let ghost ev0 = events@; broadcast use lemma_steps_push;'),
+                ('match mem::replace(&mut events[i], Event::tombstone()) {', 'before', 'let ghost ev_i = events@; proof { assert(is_token(ev0[i as int]) ==> tok_n(ev0[i as int]) >= 1); }'),
+                ('let mut idx = i;', 'before', 'let ghost k0 = kind;'),
+                ('let mut fp = forward_parent;', 'after', 'proof { assert(has_fp(ev_i[i as int]) == (fp is Some)); if fp is Some { assert(fp_of(ev_i[i as int]) == fp->Some_0); assert(start_at(ev_i, i + fp_of(ev_i[i as int]))); } }'),
+                ('idx += fwd as usize;', 'before', 'let ghost ev_j = events@; assert(fp == Some(fwd)); assert(idx + fwd < events.len());'),
+                ('_ => unreachable!(),\n                    };', 'after', 'proof { assert(has_fp(ev_j[idx as int]) == (fp is Some)); if fp is Some { assert(fp_of(ev_j[idx as int]) == fp->Some_0); assert(start_at(ev_j, idx + fp_of(ev_j[idx as int]))); } }'),
+                ('\n    output\n', 'before', 'proof { assert(ev0.take(ev0.len() as int) =~= ev0); }')],
+         loops={1: '''invariant oq3_r.iter.end == ev0.len(), rest_kept(ev0, events@, i as int), fp_ok(events@), toks_ok(ev0), forward_parents@.len() == 0,
+    i == 0 ==> events@ == ev0 && output.steps().len() == 0,
+    (i >= 1 && root_first(ev0)) ==> output.steps().len() >= 1 && output.steps()[0] is Enter,
+    (i >= 1 && ev0[i - 1] is Finish) ==> output.steps().len() >= 1 && output.steps().last() is Exit,
+    ''' + INV,
+                2: '''invariant idx < events@.len(), i <= idx, rest_kept(ev0, events@, i as int + 1), fp_ok(events@),
+    fp is Some ==> fp->Some_0 >= 1 && start_at(events@, idx + fp->Some_0),
+    forward_parents@.len() >= 1, forward_parents@[0] == k0, i == 0 ==> output.steps().len() == 0, (i == 0 && root_first(ev0)) ==> k0 != SyntaxKind::TOMBSTONE,
+    (i >= 1 && root_first(ev0)) ==> output.steps().len() >= 1 && output.steps()[0] is Enter,
+    ''' + INV + '''
+decreases events@.len() - idx,''',
+                3: '''invariant
+    (i == 0 && root_first(ev0)) ==> k0 != SyntaxKind::TOMBSTONE,
+    (i == 0 && root_first(ev0)) ==> ((output.steps().len() == 0 && forward_parents@.len() >= 1 && forward_parents@[0] == k0) || (output.steps().len() >= 1 && output.steps()[0] is Enter)),
+    (i >= 1 && root_first(ev0)) ==> output.steps().len() >= 1 && output.steps()[0] is Enter,
+    ''' + INV + '''
+ensures forward_parents@.len() == 0,
+decreases forward_parents@.len(),'''},
+         loop_ghost='broadcast use lemma_steps_push; proof { if (i as int) < ev0.len() { lemma_take_step(ev0, i as int); } }')
     U.raw('}\n')
+    # ------------------------------------------------------------------ output (write side; trusted, backed by the Kani round-trip harnesses)
+    U.raw('''pub mod output {
+use vstd::prelude::*;
+use crate::SyntaxKind;
+''')
+    U.file('crates/oq3_parser/src/output.rs').item('enum', 'Step')
+    U.prelude('contracts/shared.steps.rs')
+    U.raw('''/// stand-in for output.rs::Output (32-bit encoded events; encode/decode identity: Kani harnesses, thorough tier)
+#[verifier::external_body] pub struct Output { _p: u8 }
+impl Default for Output {
+    #[verifier::external_body] fn default() -> (r: Self) ensures r.steps().len() == 0 { unimplemented!() }
+}
+impl Output {
+    /// the traversal steps, in order (what `Output::iter` yields)
+    pub uninterp spec fn steps(&self) -> Seq<Step<'_>>;
+    #[verifier::external_body] pub fn token(&mut self, kind: SyntaxKind, n_tokens: u8)
+        ensures final(self).steps() == old(self).steps().push(Step::Token { kind, n_input_tokens: n_tokens }) { unimplemented!() }
+    #[verifier::external_body] pub fn enter_node(&mut self, kind: SyntaxKind)
+        ensures final(self).steps() == old(self).steps().push(Step::Enter { kind }) { unimplemented!() }
+    #[verifier::external_body] pub fn leave_node(&mut self)
+        ensures final(self).steps() == old(self).steps().push(Step::Exit) { unimplemented!() }
+    #[verifier::external_body] pub fn error(&mut self, error: String)
+        ensures final(self).steps() == old(self).steps().push(final(self).steps().last()), final(self).steps().last() is Error { unimplemented!() }
+}
+}
+''', note='Output::{default,token,enter_node,leave_node,error} (trusted write side of the 32-bit event encoding)')
 
     # ------------------------------------------------------------------ parser
     U.raw('''pub mod parser {
@@ -270,7 +340,7 @@ impl DropBomb {
     U.prelude('contracts/parser.model.rs')
     SAME = 'final(self).inp == old(self).inp,'
     p.impl(r"Parser<'t>", [
-        ('new', dict(ret='r', props=P, spec='requires inp.wf(), forall|i: int| 0 <= i < inp.kind@.len() ==> #[trigger] inp.kind@[i] != SyntaxKind::EOF,\nensures r.wf(), r.inp == inp, r.pos == 0, !r.has_err(),')),
+        ('new', dict(ret='r', props=P, spec='requires inp.wf(), forall|i: int| 0 <= i < inp.kind@.len() ==> #[trigger] inp.kind@[i] != SyntaxKind::EOF,\nensures r.wf(), r.inp == inp, r.pos == 0, !r.has_err(), r.events@.len() == 0,')),
         ('finish', dict(ret='r', props=P, spec='ensures r@ == self.events@,')),
         ('position', dict(ret='r', props=P, spec='ensures r == self.pos,')),
         ('current', dict(ret='k', props=P, spec='requires self.wf(), ensures k == cur(self.st()),')),
@@ -286,11 +356,11 @@ ensures
     // consumes exactly the raw tokens the (composite) kind stands for, and records that count
     b ==> final(self).inp == old(self).inp && final(self).pos == old(self).pos + raw_len(kind) && final(self).wf()
           && final(self).events@ == old(self).events@.push(Event::Token { kind, n_raw_tokens: raw_len(kind) as u8 }),      //@C02:eat-consumes-raw-len
-    old(self).has_err() ==> final(self).has_err(),''')),
+    old(self).has_err() ==> final(self).has_err(), evf(old(self).events@, final(self).events@, old(self).events@.len() as int),''')),
         ('at_composite2', dict(ret='b', props=P5, spec='requires self.wf(), n <= 3, k1 != SyntaxKind::EOF, ensures b == comp2(self.st(), n as nat, k1, k2),')),
         ('at_composite3', dict(ret='b', props=P5, spec='requires self.wf(), n <= 3, k1 != SyntaxKind::EOF, k2 != SyntaxKind::EOF, ensures b == comp3(self.st(), n as nat, k1, k2, k3),')),
         ('at_ts', dict(ret='b', props=P, spec='requires self.wf(), ensures b == crate::token_set::has(kinds, cur(self.st())),')),
-        ('start', dict(ret='m', props=P, ghost=[('let pos = self.events.len() as u32;', 'before', 'assume(self.events@.len() < u32::MAX); /* AP:global bound (DESIGN section 7): the parser records fewer than 2^32 events */')], spec='requires old(self).wf(),\nensures unmoved(*old(self), *final(self)), m.pos == old(self).events@.len(), final(self).events@ == old(self).events@.push(Event::Start { kind: SyntaxKind::TOMBSTONE, forward_parent: None }),')),
+        ('start', dict(ret='m', props=P, ghost=[('let pos = self.events.len() as u32;', 'before', 'assume(self.events@.len() < u32::MAX); /* AP:global bound (DESIGN section 7): the parser records fewer than 2^32 events */')], spec='requires old(self).wf(),\nensures unmoved(*old(self), *final(self)), m.pos == old(self).events@.len(), final(self).events@ == old(self).events@.push(Event::Start { kind: SyntaxKind::TOMBSTONE, forward_parent: None }), fresh_at(final(self).events@, m.pos as int), evf(old(self).events@, final(self).events@, old(self).events@.len() as int),')),
         ('bump', dict(props=P, spec='''
 requires old(self).wf(), kind != SyntaxKind::EOF, at(old(self).st(), kind),           // `assert!(self.eat(kind))`
 ensures mono(*old(self), *final(self)), final(self).pos == old(self).pos + raw_len(kind),''')),
@@ -315,11 +385,11 @@ ensures mono(*old(self), *final(self)), final(self).has_err(), final(self).pos <
     (cur(old(self).st()) != SyntaxKind::L_CURLY && cur(old(self).st()) != SyntaxKind::R_CURLY && cur(old(self).st()) != SyntaxKind::EOF
         && !crate::token_set::has(recovery, cur(old(self).st()))) ==> final(self).pos == old(self).pos + 1,''')),
         ('do_bump', dict(props=P, spec='''
-requires old(self).wf(), old(self).pos + n_raw_tokens <= old(self).inp.kind@.len(),
+requires old(self).wf(), old(self).pos + n_raw_tokens <= old(self).inp.kind@.len(), n_raw_tokens >= 1,      // (call sites: 1, or the 2 / 3 pieces of a composite token)
 ensures final(self).wf(), final(self).inp == old(self).inp, final(self).pos == old(self).pos + n_raw_tokens,
     final(self).events@ == old(self).events@.push(Event::Token { kind, n_raw_tokens }), old(self).has_err() ==> final(self).has_err(),''')),
         ('push_event', dict(props=P, ghost=[('self.events.push(event);', 'before', 'proof { lemma_has_err_push(self.events@, event); }')],
-                            spec='ensures final(self).events@ == old(self).events@.push(event), final(self).inp == old(self).inp, final(self).pos == old(self).pos,\n    final(self).has_err() == (old(self).has_err() || event is Error),')),
+                            spec='ensures final(self).events@ == old(self).events@.push(event), final(self).inp == old(self).inp, final(self).pos == old(self).pos,\n    final(self).has_err() == (old(self).has_err() || event is Error),\n    ev_sum(final(self).events@) == ev_sum(old(self).events@) + tok_n(event), toks_ok(final(self).events@) == (toks_ok(old(self).events@) && (event is Token ==> tok_n(event) >= 1)),')),
     ])
     MK = 'requires old(p).wf(),'
     p.impl('Marker', [
@@ -330,12 +400,14 @@ ensures final(self).wf(), final(self).inp == old(self).inp, final(self).pos == o
     kind == SyntaxKind::ERROR ==> old(p).has_err(),                                  //@C12:error-node-needs-error-event
 ensures unmoved(*old(p), *final(p)), r.kind == kind, r.pos == self.pos,
     // the slot gets its kind and a Finish event is appended; every other slot is untouched
-    final(p).events@ == old(p).events@.update(self.pos as int, Event::Start { kind, forward_parent: None }).push(Event::Finish),''',
+    final(p).events@ == old(p).events@.update(self.pos as int, Event::Start { kind, forward_parent: None }).push(Event::Finish),
+    evf(old(p).events@, final(p).events@, self.pos as int), done_at(final(p).events@, self.pos as int),''',
                           ghost=[('p.push_event(Event::Finish);', 'before', 'proof { lemma_has_err_update(old(p).events@, self.pos as int, p.events@[self.pos as int]); }')])),
-        ('abandon', dict(props=P, mut_self=True, spec=MK + ''' pending_at(old(p).events@, self.pos as int),
+        ('abandon', dict(props=P, mut_self=True, spec=MK + ''' fresh_at(old(p).events@, self.pos as int),      // pending, and no forward_parent link points at it (C01: event::process follows those links)
 ensures unmoved(*old(p), *final(p)),
     // the reserved slot is removed again if nothing came after it, otherwise it stays (as a tombstone)
-    final(p).events@ == (if self.pos == old(p).events@.len() - 1 { old(p).events@.drop_last() } else { old(p).events@ }),''',
+    final(p).events@ == (if self.pos == old(p).events@.len() - 1 { old(p).events@.drop_last() } else { old(p).events@ }),
+    evf(old(p).events@, final(p).events@, self.pos as int),''',
                          ghost=[('match p.events.pop() {', 'before', 'proof { lemma_has_err_drop_last(old(p).events@); }')])),
     ])
     p.impl('CompletedMarker', [
@@ -462,7 +534,7 @@ pub mod entry {
         use super::*;
 """)
     g = U.file(G)
-    g.fn('source_file', depth=2, spec=gspec('', ' ' + PW + 'cur(final(p).st()) == SyntaxKind::EOF,                  //@C02,C01:whole-input-consumed'), props=P, nodecreases=True, qualname='entry::top::source_file')
+    g.fn('source_file', depth=2, spec=gspec('', ' ' + PW + 'cur(final(p).st()) == SyntaxKind::EOF,                  //@C02,C01:whole-input-consumed\n    // called on a fresh parser, the event list is one SOURCE_FILE node: its Start comes first and its Finish last\n    old(p).events@.len() == 0 ==> crate::event::root_first(final(p).events@) && final(p).events@.last() is Finish,       //@C02,C01:one-root-node'), props=P, nodecreases=True, qualname='entry::top::source_file')
     g.fn('expr', depth=2, spec=gspec(), props=P, nodecreases=True, qualname='entry::top::expr', ghost=[('m.complete(p, ERROR);', 'before', 'assume(p.has_err()); // KF:C12-expr-entry-error-node')], loops={1: 'invariant crate::parser::mono(*old(p), *p),\ndecreases crate::parser::rem(p.st()),'})
     U.raw('    }\n}\n')
     g.item('enum', 'BlockLike')
@@ -556,9 +628,40 @@ ensures
                       'event::process, Output, TopEntryPoint::parse (debug balance assertions) are outside this unit']
     U.assumed_dep = ['derive(Clone/Copy/PartialEq/Eq/Debug) on SyntaxKind and the small grammar enums: structural',
                      'Option::<&T>::copied returns the pointee (assume_specification)']
-    U.not_verified = ['Marker::{complete,abandon}, CompletedMarker::{precede,extend_to}: event-slot discipline (trusted contracts: state unchanged)',
-                      'Parser::nth: Cell step counter and the "parser seems stuck" assertion', 'Parser::error (generic Into<String>)',
-                      'Input::{push,was_joint} (SHORT unit)']
+    U.assumed_dep += ['std::mem::replace stores the new value and returns the old one (assume_specification)',
+                      'Output::{default,token,enter_node,leave_node,error}: trusted write-side contracts over the abstract step list `steps()` (the 32-bit encode/decode identity is the Kani obligation of the thorough tier)']
+    U.not_verified = ['Parser::nth: Cell step counter and the "parser seems stuck" assertion', 'Parser::error (generic Into<String>)',
+                      'Input::{push,was_joint} (SHORT unit)', 'DropBomb: the Drop discipline of markers is not modelled',
+                      'TopEntryPoint::parse: the `if cfg!(debug_assertions) { .. }` tree-balance assertions exist in the debug profile only and are dropped (D29): the verified text is the release profile']
+    # ---- TopEntryPoint::parse (crate root): Parser::new -> entry point -> finish -> event::process
+    import re as _re
+    from vlib.unit import REPO as _REPO0
+    _lib = open(__import__('os').path.join(_REPO0, PL)).read()
+    _m = _re.search(r"let entry_point: fn\(&'_ mut parser::Parser<'_>\) = match self \{(.*?)\n        \};\n", _lib, _re.S)
+    _rw = []
+    if _m:
+        # D28: a `match` that selects a function item, followed by one call through the pointer -> the same `match` performing the call
+        arms = _re.findall(r'^\s*(TopEntryPoint::\w+) => ([\w:]+),\s*$', _m.group(1), _re.M)
+        _rw = [('D28', _m.group(0), ''), ('D28', 'entry_point(&mut p);', 'match self { %s }' % ' '.join('%s => %s(&mut p),' % a for a in arms))]
+        # D29: `if cfg!(debug_assertions) { .. }` is `if false { .. }` in the release profile: the block is dropped (profile stated in the evidence)
+        b0 = _lib.index('if cfg!(debug_assertions) {', _m.end())
+        d_, k_ = 0, _lib.index('{', b0)
+        for j_ in range(k_, len(_lib)):
+            d_ += (_lib[j_] == '{') - (_lib[j_] == '}')
+            if d_ == 0:
+                break
+        _rw.append(('D29', _lib[b0:j_ + 1], '/* release profile: cfg!(debug_assertions) == false */'))
+    U.raw('use crate::{input::Input, output::{Output, Step, tok_sum, output_shape}};\n')
+    l = U.file(PL)
+    l.item('enum', 'TopEntryPoint')
+    l.impl('TopEntryPoint', [('parse', dict(ret='r', props=P, rewrites=_rw, spec='''
+requires input.wf(), forall|i: int| 0 <= i < input.kind@.len() ==> #[trigger] input.kind@[i] != SyntaxKind::EOF,     // what LexedStr::to_input establishes (SHORT unit)
+ensures
+    // the Token steps never account for more raw tokens than the input holds, none is empty, and there is no FloatSplit step
+    tok_sum(r.steps()) <= input.kind@.len(), crate::event::steps_ok(r.steps()),                         //@C02,C01:token-steps-within-the-input
+    // for a source file: one root node around everything, and the Token steps account for EVERY token of the input
+    *self is SourceFile ==> output_shape(r.steps()) && tok_sum(r.steps()) == input.kind@.len(),         //@C02,C01:source-file-output-covers-the-input''',
+        ghost=[('        res\n', 'before', 'proof { crate::event::lemma_tok_sum_b(res.steps()); }')]))])
     # ---- marker discipline: contracts generated from the SIGNATURES (which markers come in, which go out)
     from vlib.rustsrc import RustFile as _RF, split_signature as _split, find_loops as _find_loops
     import os as _os
@@ -583,10 +686,10 @@ ensures
         req, ens = '', ''
         lo = None
         for m_ in pend:
-            req += ' crate::parser::pending_at(old(p).events@, %s.pos as int),' % m_
+            req += ' crate::parser::fresh_at(old(p).events@, %s.pos as int),' % m_
             lo = '%s.pos as int' % m_
         for m_ in optm:
-            req += ' (%s is Some ==> crate::parser::pending_at(old(p).events@, %s->Some_0.pos as int)),' % (m_, m_)
+            req += ' (%s is Some ==> crate::parser::fresh_at(old(p).events@, %s->Some_0.pos as int)),' % (m_, m_)
             lo = '(if %s is Some { %s->Some_0.pos as int } else { old(p).events@.len() as int })' % (m_, m_)
         for c_ in comp:
             req += ' crate::parser::done_at(old(p).events@, %s.pos as int),' % c_
@@ -606,7 +709,7 @@ ensures
             elif rty.startswith('Option<(CompletedMarker'):
                 ens += ' (%s is Some ==> crate::parser::done_at(final(p).events@, %s->Some_0.0.pos as int) && %s->Some_0.0.pos >= old(p).events@.len()),' % (r_, r_, r_)
             elif rty.startswith('Result<(), Marker>'):
-                ens += ' (%s is Err ==> %s->Err_0.pos == %s.pos && crate::parser::pending_at(final(p).events@, %s.pos as int)),' % (r_, r_, pend[0], pend[0])
+                ens += ' (%s is Err ==> %s->Err_0.pos == %s.pos && crate::parser::fresh_at(final(p).events@, %s.pos as int)),' % (r_, r_, pend[0], pend[0])
         spec = e.spec
         if req:
             spec = spec.replace('requires old(p).wf(),', 'requires old(p).wf(),' + req, 1)
@@ -618,9 +721,10 @@ ensures
         if lo and loops_exist(body):
             e.ghost = [('{', 'after', 'let ghost oq3_lo: int = %s;' % lo)] + list(e.ghost)
         # loops: the frame of the function, plus the validity of the markers that are still used afterwards
-        names = [(n_, 'pending_at') for n_ in pend] + [(n_, 'done_at') for n_ in comp]
-        for mm in re.finditer(r'\blet\s+(?:mut\s+)?(\w+)\s*=\s*(?:p\.start\(\)|\w+\.precede\(p\))', body):
-            names.append((mm.group(1), 'pending_at', mm.start()))
+        names = [(n_, 'fresh_at') for n_ in pend] + [(n_, 'done_at') for n_ in comp]
+        for mm in re.finditer(r'\blet\s+(?:mut\s+)?(\w+)\s*=\s*(p\.start\(\)|\w+\.precede\(p\))', body):
+            # a slot from `p.start()` is fresh (may be abandoned); one from `precede` has a link aimed at it (must be completed)
+            names.append((mm.group(1), 'fresh_at' if mm.group(2).startswith('p.start') else 'pending_at', mm.start()))
         loops = _find_loops(body)
 
         def inv_for(kwoff):
